@@ -177,6 +177,7 @@ func TestVerifC11Child(t *testing.T) {
 	p := strings.Split(spec, ":")
 	start, _ := strconv.Atoi(p[1])
 	end, _ := strconv.Atoi(p[2])
+	var base *c11Base
 	if p[0] == "batch" {
 		out := bufio.NewWriter(os.Stdout)
 		cur := make(chan int, 1)
@@ -188,7 +189,9 @@ func TestVerifC11Child(t *testing.T) {
 		out.Flush()
 		return
 	}
-	var base *c11Base
+	if p[0] == "page" {
+		base = &c11Base{name: "page", data: c11PageBase()}
+	}
 	for _, b := range c11Bases() {
 		if b.name == p[0] {
 			bb := b
@@ -218,6 +221,9 @@ func TestVerifC11Child(t *testing.T) {
 		out.Flush()
 		cur <- i
 		data, _ := c11Variant(base.data, i)
+		if base.name == "page" {
+			data = c11PageVariant(base.data, i)
+		}
 		if err := os.WriteFile(vp, data, 0o644); err != nil {
 			t.Fatal(err)
 		}
@@ -437,6 +443,32 @@ func TestVerifC11(t *testing.T) {
 			r.Nontrivial(fmt.Sprintf("batch:%d", rg[0]))
 		})
 	}
+	// family "page": see c11batch_test.go
+	{
+		total := c11PageTotal()
+		r.Set("variants_page", total)
+		oc := c11RunRange("page", 0, total, r.Expired)
+		r.Eval(oc.count)
+		if oc.cut {
+			r.Incomplete("budget exhausted inside family page")
+		}
+		for vi, msg := range oc.bad {
+			r.Violation(fmt.Sprintf("page: %s: %s", c11PageDesc(vi), msg), fmt.Sprintf("%s beside a healthy shard: %s", c11PageDesc(vi), msg), map[string]any{"case": fmt.Sprintf("page:%d", vi)})
+		}
+		for vi, msg := range oc.died {
+			again := c11RunRange("page", vi, vi+1, nil)
+			if len(again.died) == 0 {
+				r.Note("page variant %s killed a child once but not when re-run alone: %s", c11PageDesc(vi), msg)
+				continue
+			}
+			short := msg
+			if len(short) > 90 {
+				short = short[:90]
+			}
+			r.Violation(fmt.Sprintf("page: %s: serving process dies: %s", c11PageDesc(vi), short), fmt.Sprintf("%s beside a healthy shard: the process that loads/searches it died: %s", c11PageDesc(vi), msg), map[string]any{"case": fmt.Sprintf("page:%d", vi)})
+		}
+		r.Nontrivial("page")
+	}
 	r.Assume("files are not modified after being loaded; a variant that keeps a child busy for 60 s is counted as a hang (µs-scale work otherwise)")
-	r.Finish("case = (base shard simple|symbols|compound, variant): every truncation, every single-bit flip and every byte set to 00/7f/80/ff (quick: substitutions for the simple shard only, bit flips of the other shards only in their last 600 bytes: TOC and metadata); each variant is loaded beside a healthy shard through loader.load and 6 queries × 2 modes + List run on the shardedSearcher; oracle: process survives, calls return, healthy repository's results unchanged; family batch: every sequence of <= 5 keys over {healthy, truncated, empty, garbage, cut TOC} in one load call with GOMAXPROCS=2: load returns and exactly the healthy shards are served")
+	r.Finish("case = (base shard simple|symbols|compound, variant): every truncation, every single-bit flip and every byte set to 00/7f/80/ff (quick: substitutions for the simple shard only, bit flips of the other shards only in their last 600 bytes: TOC and metadata); each variant is loaded beside a healthy shard through loader.load and 6 queries × 2 modes + List run on the shardedSearcher; oracle: process survives, calls return, healthy repository's results unchanged; family batch: every sequence of <= 5 keys over {healthy, truncated, empty, garbage, cut TOC} in one load call with GOMAXPROCS=2: load returns and exactly the healthy shards are served; family page: a 12 KB shard cut to 1-3 pages exactly (and one byte less) with trailers pointing at / behind the end of the file")
 }
